@@ -14,3 +14,4 @@ open Emboss.Enum
 #print axioms C19_field_signed_full_width_partial
 #print axioms C19_field_text_number_partial
 #print axioms C19_field_counterexample
+#print axioms C19_enum_case_other_back_end_ignored
